@@ -545,7 +545,17 @@ def union_all(chk, rid):
   for x in walk_local(fi.node):
     if (isinstance(x, ast.Call) and call_tail(x) == 'join' and
         isinstance(x.func, ast.Attribute) and const_str(x.func.value) is not None
-        and x.args and dotted(x.args[0]) == 'rules_sql'):
+        and x.args and (dotted(x.args[0]) == 'rules_sql' or
+                        # the list of per-rule SELECTs under another name: the
+                        # one that is filled from SingleRuleSql results
+                        (isinstance(x.args[0], ast.Name) and any(
+                            isinstance(c_, ast.Call) and call_tail(c_) == 'append' and
+                            dotted(c_.func.value) == x.args[0].id and
+                            'single_rule_sql' in norm(c_, 200) or
+                            isinstance(c_, ast.Call) and call_tail(c_) == 'append' and
+                            dotted(c_.func.value) == x.args[0].id and
+                            'SingleRuleSql' in norm(c_, 300)
+                            for c_ in walk_local(fi.node))))):
       joins.append(x)
   if not joins:
     raise AnalysisError('PredicateSql: join over rules_sql not found')
